@@ -594,3 +594,147 @@ Theorem mtime_epoch_refuted :
     Some ([(bs "f"%string, NFile {| m_mode := 420; m_sec := 0; m_nsec := 0 |} (bs "data"%string))], false) /\
   parse true (serialize true witness) <> Some (witness, false).
 Proof. split; [reflexivity|]. split; [vm_compute; reflexivity|]. vm_compute. discriminate. Qed.
+
+(** ---------- the parser's fuel is never exhausted, for ANY list of parts ---------- *)
+Lemma prefix_eqb_spec : forall p c, prefix_eqb p c = true -> c = p ++ skipn (List.length p) c.
+Proof.
+  induction p as [|a p IH]; intros c H; [reflexivity|]. destruct c as [|b c]; [discriminate|].
+  cbn in H. apply andb_true_iff in H. destruct H as [H1 H2]. apply bytes_eqb_eq in H1. subst b.
+  cbn [List.length skipn app]. f_equal. apply IH. exact H2.
+Qed.
+
+Lemma is_child_split : forall nm P, is_child nm P = true ->
+  nm = P ++ skipn (List.length P) nm /\ (List.length P <= List.length nm)%nat.
+Proof.
+  intros nm P H. unfold is_child in H. destruct P as [|a P'] eqn:E; [split; [reflexivity|cbn; lia]|].
+  rewrite <- E in *. apply andb_true_iff in H. destruct H as [H1 H2].
+  split; [apply prefix_eqb_spec; exact H2|lia].
+Qed.
+
+Lemma is_child_fake : forall nm P c c2 r, is_child nm P = true ->
+  skipn (List.length P) nm = c :: c2 :: r -> is_child nm (P ++ [c]) = true.
+Proof.
+  intros nm P c c2 r H S. apply is_child_split in H. destruct H as [H _]. rewrite S in H.
+  unfold is_child. destruct (P ++ [c]) as [|x l] eqn:E; [reflexivity|]. rewrite <- E.
+  replace nm with ((P ++ [c]) ++ c2 :: r) by (rewrite H, <- app_assoc; reflexivity).
+  rewrite prefix_eqb_refl_app, !app_length. cbn [List.length]. lia.
+Qed.
+
+Lemma pdir_weight : forall fl f P cur ps es rest err,
+  pdir fl f P cur ps = Some (es, rest, err) ->
+  (weight rest <= weight ps)%nat /\
+  (forall p ps0 nm, ps = p :: ps0 -> fname p = Some nm -> is_child nm P = true ->
+                    (weight rest <= weight ps0)%nat).
+Proof.
+  intros fl f. induction f as [|f IH]; intros P cur ps es rest err H; [discriminate|].
+  cbn [pdir] in H. destruct ps as [|p ps0].
+  - inversion H; subst. split; [lia|]. intros; discriminate.
+  - destruct (fname p) as [nm|] eqn:Fn.
+    2:{ inversion H; subst. split; [lia|]. intros p' ps' nm' E F. inversion E; subst. congruence. }
+    destruct (negb (is_child nm P)) eqn:Ch.
+    { inversion H; subst. split; [lia|]. intros p' ps' nm' E F C. inversion E; subst.
+      rewrite Fn in F. inversion F; subst. rewrite C in Ch. discriminate. }
+    apply negb_false_iff in Ch.
+    assert (Goal2 : (weight rest <= weight ps0)%nat ->
+                    (weight rest <= weight (p :: ps0))%nat /\
+                    (forall p' ps' nm', p :: ps0 = p' :: ps' -> fname p' = Some nm' -> is_child nm' P = true ->
+                                        (weight rest <= weight ps')%nat)).
+    { intro W. split; [cbn [weight]; lia|]. intros p' ps' nm' E _ _. inversion E; subst. exact W. }
+    apply Goal2. clear Goal2.
+    destruct (negb (is_nil cur) && is_child nm (P ++ [cur])).
+    { apply IH in H. tauto. }
+    cbv zeta in H.
+    destruct (skipn (List.length P) nm) as [|c [|c2 r]] eqn:Sk.
+    + (* name = P itself (root only) *)
+      destruct (p_ctype p);
+        try (destruct (pdir fl f P [] ps0) as [[[es2 rest2] err2]|] eqn:C; [|discriminate];
+             inversion H; subst; apply IH in C; tauto).
+      * destruct (pdir fl f nm [] ps0) as [[[es1 rest1] err1]|] eqn:Sub; [|discriminate].
+        apply IH in Sub. destruct Sub as [W1 _]. destruct err1; [inversion H; subst; exact W1|].
+        destruct (pdir fl f P [] rest1) as [[[es2 rest2] err2]|] eqn:C; [|discriminate].
+        inversion H; subst. apply IH in C. lia.
+      * destruct (pdir fl f nm [] ps0) as [[[es1 rest1] err1]|] eqn:Sub; [|discriminate].
+        apply IH in Sub. destruct Sub as [W1 _]. destruct err1; [inversion H; subst; exact W1|].
+        destruct (pdir fl f P [] rest1) as [[[es2 rest2] err2]|] eqn:C; [|discriminate].
+        inversion H; subst. apply IH in C. lia.
+      * inversion H; subst. lia.
+    + (* direct child *)
+      destruct (p_ctype p);
+        try (destruct (pdir fl f P c ps0) as [[[es2 rest2] err2]|] eqn:C; [|discriminate];
+             inversion H; subst; apply IH in C; tauto).
+      * destruct (pdir fl f nm [] ps0) as [[[es1 rest1] err1]|] eqn:Sub; [|discriminate].
+        apply IH in Sub. destruct Sub as [W1 _]. destruct err1; [inversion H; subst; exact W1|].
+        destruct (pdir fl f P c rest1) as [[[es2 rest2] err2]|] eqn:C; [|discriminate].
+        inversion H; subst. apply IH in C. lia.
+      * destruct (pdir fl f nm [] ps0) as [[[es1 rest1] err1]|] eqn:Sub; [|discriminate].
+        apply IH in Sub. destruct Sub as [W1 _]. destruct err1; [inversion H; subst; exact W1|].
+        destruct (pdir fl f P c rest1) as [[[es2 rest2] err2]|] eqn:C; [|discriminate].
+        inversion H; subst. apply IH in C. lia.
+      * inversion H; subst. lia.
+    + (* implicit directory *)
+      destruct (pdir fl f (P ++ [c]) [] (p :: ps0)) as [[[es1 rest1] err1]|] eqn:Sub; [|discriminate].
+      apply IH in Sub. destruct Sub as [_ W1].
+      specialize (W1 p ps0 nm eq_refl Fn (is_child_fake _ _ _ _ _ Ch Sk)).
+      destruct err1; [inversion H; subst; exact W1|].
+      destruct (pdir fl f P c rest1) as [[[es2 rest2] err2]|] eqn:C; [|discriminate].
+      inversion H; subst. apply IH in C. lia.
+Qed.
+
+Lemma pdir_total_gen : forall fl f P cur ps,
+  (1 <= f)%nat -> (weight ps + 1 <= f + List.length P)%nat -> pdir fl f P cur ps <> None.
+Proof.
+  intros fl f. induction f as [|f IH]; intros P cur ps H1 H2; [lia|].
+  cbn [pdir]. destruct ps as [|p ps0]; [discriminate|].
+  destruct (fname p) as [nm|] eqn:Fn; [|discriminate].
+  destruct (negb (is_child nm P)) eqn:Ch; [discriminate|]. apply negb_false_iff in Ch.
+  pose proof (is_child_split _ _ Ch) as [Hsplit Hlen].
+  assert (Hw : weight (p :: ps0) = (S (List.length nm) + weight ps0)%nat)
+    by (cbn [weight]; unfold ncomp; rewrite Fn; reflexivity).
+  rewrite Hw in H2.
+  assert (F1 : (1 <= f)%nat) by lia.
+  assert (K0 : forall cur' rest', (weight rest' <= weight ps0)%nat -> pdir fl f P cur' rest' <> None)
+    by (intros; apply IH; lia).
+  destruct (negb (is_nil cur) && is_child nm (P ++ [cur])); [apply K0; lia|].
+  cbv zeta.
+  assert (Kc : forall cur' nd rest', (weight rest' <= weight ps0)%nat ->
+            match pdir fl f P cur' rest' with
+            | Some (es2, rest2, err2) => Some ((cur', nd) :: es2, rest2, err2)
+            | None => None
+            end <> @None pres).
+  { intros cur' nd rest' W. specialize (K0 cur' rest' W).
+    destruct (pdir fl f P cur' rest') as [[[a b] c']|]; [discriminate|contradiction]. }
+  assert (Kd : forall cur' m, 
+            match pdir fl f nm [] ps0 with
+            | Some (es, rest', err) =>
+                if err then Some ([(cur', NDir m es)], rest', true)
+                else match pdir fl f P cur' rest' with
+                     | Some (es2, rest2, err2) => Some ((cur', NDir m es) :: es2, rest2, err2)
+                     | None => None
+                     end
+            | None => None
+            end <> @None pres).
+  { intros cur' m. assert (S1 : pdir fl f nm [] ps0 <> None) by (apply IH; lia).
+    destruct (pdir fl f nm [] ps0) as [[[es1 rest1] err1]|] eqn:Sub; [|contradiction].
+    apply pdir_weight in Sub. destruct Sub as [W1 _]. destruct err1; [discriminate|].
+    apply Kc. exact W1. }
+  destruct (skipn (List.length P) nm) as [|c [|c2 r]] eqn:Sk.
+  - destruct (p_ctype p); try (apply Kc; lia); try apply Kd. discriminate.
+  - destruct (p_ctype p); try (apply Kc; lia); try apply Kd. discriminate.
+  - assert (Hl2 : (List.length P + 2 <= List.length nm)%nat).
+    { rewrite Hsplit, app_length. cbn [List.length]. lia. }
+    assert (S1 : pdir fl f (P ++ [c]) [] (p :: ps0) <> None).
+    { apply IH; [lia|]. rewrite Hw, app_length. cbn [List.length]. lia. }
+    destruct (pdir fl f (P ++ [c]) [] (p :: ps0)) as [[[es1 rest1] err1]|] eqn:Sub; [|contradiction].
+    apply pdir_weight in Sub. destruct Sub as [_ W1].
+    specialize (W1 p ps0 nm eq_refl Fn (is_child_fake _ _ _ _ _ Ch Sk)).
+    destruct err1; [discriminate|]. apply Kc. exact W1.
+Qed.
+
+(** [parse] never runs out of fuel: for every flag and EVERY list of parts *)
+Theorem parse_total : forall fl ps, parse fl ps <> None.
+Proof.
+  intros fl ps. unfold parse.
+  pose proof (pdir_total_gen fl (fuel_of ps) [] [] ps) as H. unfold fuel_of in *.
+  destruct (pdir fl (S (weight ps)) [] [] ps) as [[[es rest] err]|]; [discriminate|].
+  exfalso. apply H; [lia|cbn [List.length]; lia|reflexivity].
+Qed.
